@@ -37,13 +37,13 @@ def is_html(scanner: BackwardScanner):
                 # opening tag
                 ok = True
                 break
-            elif scanner.consume(is_white_space):
-                # boolean attribute
-                continue
-            elif scanner.consume(Chars.Equals):
+            elif consume_equals(scanner):
                 # simple unquoted value or invalid attribute
                 if consume_ident(scanner): continue
                 break
+            elif scanner.consume(is_white_space):
+                # boolean attribute
+                continue
             elif consume_attribute_with_unquoted_value(scanner):
                 # identifier was a part of unquoted value
                 ok = True
@@ -72,7 +72,7 @@ def consume_attribute(scanner: BackwardScanner):
 
 def consume_attribute_with_quoted_value(scanner: BackwardScanner):
     start = scanner.pos
-    if consume_quoted(scanner) and scanner.consume(Chars.Equals) and consume_ident(scanner):
+    if consume_quoted(scanner) and consume_equals(scanner) and consume_ident(scanner):
         return True
 
     scanner.pos = start
@@ -97,6 +97,21 @@ def consume_attribute_with_unquoted_value(scanner: BackwardScanner):
 
 
     if start != scanner.pos and scanner.consume(Chars.Equals) and consume_ident(scanner):
+        return True
+
+    scanner.pos = start
+    return False
+
+
+def consume_equals(scanner: BackwardScanner):
+    """
+    Consumes `=` between attribute name and its value. HTML allows white space
+    around it: `<a href = "...">`
+    """
+    start = scanner.pos
+    scanner.consume_while(is_white_space)
+    if scanner.consume(Chars.Equals):
+        scanner.consume_while(is_white_space)
         return True
 
     scanner.pos = start
